@@ -293,6 +293,16 @@ def check_handlers(ctx, rule, d):
                           'the Exception handler precedes the PacketError handler: inner PacketErrors are re-wrapped and lose their stack', tr.lineno)
         else:
             ctx.holds(rule, w, '%s: handler order %s' % (d.label, types), 'PacketError is handled before Exception', tr.lineno)
+    # a narrower handler in front of the catch-all decides what happens to those failures
+    for h in hs:
+        if h in pe[:1] or h in ex[:1] or (ex and hs.index(h) > hs.index(ex[0])):
+            continue
+        last = h.body[-1] if h.body else None
+        st = '%s: except %s: %s' % (d.label, unparse(h.type) if h.type is not None else '', '; '.join(stmt_text(s) for s in h.body)[:100])
+        if isinstance(last, ast.Raise) and isinstance(last.exc, ast.Call) and call_name(last.exc) == 'PacketError':
+            ctx.undecided(rule, w, st, 'a further handler builds its own PacketError: not compared with the discipline', h.lineno)
+        else:
+            ctx.violation(rule, w, st, 'failures of this class are taken out of the catch-all: they leave the driver as they are (or are swallowed) instead of becoming PacketError', h.lineno, witness=True)
     cursor = d.cursor
     clsname_ok = lambda e: d.c(e) in ('PKT.__class__.__name__', 'type(PKT).__name__')
     for h in pe[:1]:
